@@ -2,7 +2,10 @@
 
 package spynode
 
-import "sync/atomic"
+import (
+	"sync/atomic"
+	"time"
+)
 
 // Read-only views of the shutdown protocol's flags and thread counters (property C19; add-only,
 // compiled only with -tags verif).
@@ -18,4 +21,56 @@ func (node *Node) VerifFlags() (bool, bool, bool) {
 	node.lock.Lock()
 	defer node.lock.Unlock()
 	return node.stopping, node.stopped, node.needsRestart
+}
+
+// VerifConnNil: Run has closed and cleared the trusted connection (it is inside its phased shutdown).
+func (node *Node) VerifConnNil() bool {
+	node.lock.Lock()
+	defer node.lock.Unlock()
+	return node.connection == nil
+}
+
+// VerifUntrusted builds an untrusted node exactly like addUntrustedNode does (real constructor, real
+// configuration and repositories of this node); the caller runs its real Run / Stop.
+func (node *Node) VerifUntrusted(address string) *UntrustedNode {
+	return NewUntrustedNode(address, node.config, node.state, node.store, node.peers, node.blocks, node.txs,
+		node.memPool, &node.unconfTxChannel, node.handlers, node, false)
+}
+
+// VerifOutgoing returns fill and capacity of the untrusted node's outgoing queue.
+func (un *UntrustedNode) VerifOutgoing() (int, int) {
+	un.outgoing.lock.Lock()
+	ch := un.outgoing.Channel
+	un.outgoing.lock.Unlock()
+	return len(ch), cap(ch)
+}
+
+// VerifOutgoingFill reads the fill without the queue's mutex (a producer blocked in Add holds it).
+func (un *UntrustedNode) VerifOutgoingFill() (int, int) {
+	ch := un.outgoing.Channel
+	return len(ch), cap(ch)
+}
+
+// VerifCounts returns the untrusted node's incomingCount and processingCount.
+func (un *UntrustedNode) VerifCounts() (int64, int64) {
+	return int64(atomic.LoadUint32(&un.incomingCount)), int64(atomic.LoadUint32(&un.processingCount))
+}
+
+// VerifDrainOutgoingFor empties the outgoing queue for d (test harness only: ends a hung scenario).
+func (un *UntrustedNode) VerifDrainOutgoingFor(d time.Duration) int {
+	ch := un.outgoing.Channel
+	n := 0
+	deadline := time.Now().Add(d)
+	for time.Now().Before(deadline) {
+		select {
+		case _, ok := <-ch:
+			if !ok {
+				return n
+			}
+			n++
+		default:
+			time.Sleep(5 * time.Millisecond)
+		}
+	}
+	return n
 }
